@@ -339,9 +339,9 @@ func classifyRequest(req *http.Request) (clientProtocolHandler, url.Values) {
 		}
 		// REST usually uses application/json, but use of google.api.HttpBody means it could
 		// also use *any* content-type.
-		fallthrough
-	default:
 		return restClientProtocol{}, values
+	default:
+		return restClientProtocol{}, req.URL.Query()
 	}
 }
 
